@@ -29,6 +29,7 @@ MsgStep(e) ==
     /\ Check("C16.trips-derived-fields-and-stale-filter", c, l, (ok /\ cf) => C02_Trips(ents2, r))
     /\ Check("C16.vehicles", c, l, (ok /\ cf) => (C02_IdVehicles(ents2, r) /\ C02_IdlessVehicles(ents2, r)))
     /\ Check("C16.assigned-trip-linked-to-train", c, l, (ok /\ cf) => C04_Links(ents2, r))
+    /\ Check("C16.every-assigned-trip-has-its-train", c, l, ok => C16_AssignedTripsHaveTheirTrain(msg, opts, r))
     /\ Check("C16.alerts-and-header-untouched", c, l, (ok /\ cf) => (C02_Alerts(ents2, r) /\ C02_Header(msg, r)))
     /\ Check("C16.unique-sorted", c, l, ok => (C07_UniqueTrips(r) /\ C07_TripsSorted(r)))
     (* the same clauses under the names of the general properties they instantiate for a parse with an extension *)
